@@ -66,7 +66,7 @@ MIN_OBS = {
                  'acks_checked': 6000, 'kinds_covered': 25, 'exhaustive_sequences': 2400},
 }
 SHARD_TIMEOUT = {'quick': 600, 'thorough': 5400}
-N_RANDOM = {'quick': 6000, 'thorough': 60000}
+N_RANDOM = {'quick': 6000, 'thorough': 600000}
 WHAT_FAILS = {
     'state:': 'a room/user field differs from the fold of the announcements after the named notification kind',
     'event:wrong-target': 'an event names a room/user other than the one the notification announced',
